@@ -230,12 +230,10 @@ def applied_cases(ctx):
             # set in the middle of a frame (stored for the next frame when update-authorised, refused otherwise), frame abandoned
             cases.append(("applied midframe", ["new c", "start", st, "reset 1", "applied 3000", "applied 3000", "reset 3", "applied 3000"]))
     # a whole ZSTD_CCtx_params object applied to the context (ZSTD_CCtx_setParametersUsingCCtxParams): outside a frame only, all values at once,
-    # in force for the following frames like single sets; on a heap and on a static context (worker counts are not applied to a static context here:
-    # the unchanged library takes them through this door, see the report of the strengthening round)
+    # in force for the following frames like single sets; on a heap and on a static context (which refuses an object that asks for worker threads,
+    # like the single-parameter setter does: fix 3ca0aa5)
     for kind in "cs":
         for p in cps:
-            if kind == "s" and p["id"] == 400:
-                continue
             for v in grid_values(p):
                 if p["id"] in BIG and v > BIG[p["id"]] and p["id"] == 161:
                     continue
@@ -332,6 +330,7 @@ def monitor(ctx, lines, couts):
     cps, dps = ctx.gen["cps"], ctx.gen["dps"]
     kind, ps, prev, started = "c", cps, None, False
     static = False
+    par_workers = 0          # worker count held by the separate ZSTD_CCtx_params object (pset 400 v accepted)
     applied_seen = {}
     if lines and lines[0].startswith("derive"):
         return monitor_derive(ctx, lines, couts)
@@ -343,7 +342,7 @@ def monitor(ctx, lines, couts):
         vals = vals.split()
         if w[0] == "new":
             kind = w[1]; static = kind in "st"; kind = {"s": "c", "t": "d"}.get(kind, kind)
-            ps = dps if kind == "d" else cps; started = False
+            ps = dps if kind == "d" else cps; started = False; par_workers = 0
             defaults = [str(p["dflt"]) for p in ps]
             if vals != defaults:
                 return "fresh object does not read back the defaults"
@@ -398,12 +397,17 @@ def monitor(ctx, lines, couts):
         elif w[0] == "pset":
             if vals != prev:
                 return "setting a parameter of a separate ZSTD_CCtx_params object changed the context's parameters"
+            if w[1] == "400" and status.startswith("ok"):
+                hi = [p for p in cps if p["id"] == 400][0]["hi"]
+                par_workers = max(0, min(int(w[2]), hi))
         elif w[0] == "papply":
             if status.startswith("err") and vals != prev:
                 return "refused ZSTD_CCtx_setParametersUsingCCtxParams changed the state"
             if status.startswith("ok") and started:
                 return "ZSTD_CCtx_setParametersUsingCCtxParams accepted mid-frame"
-            if not status.startswith("ok") and not started:
+            if static and par_workers != 0 and not started and status != "err:unsupported":
+                return "static CCtx: ZSTD_CCtx_setParametersUsingCCtxParams with nbWorkers=%d in the object -> %s (worker threads must be refused with parameter_unsupported: a static context cannot allocate them)" % (par_workers, status)
+            if not status.startswith("ok") and not started and not (static and par_workers != 0):
                 return "ZSTD_CCtx_setParametersUsingCCtxParams refused outside a frame: %s" % status
         elif w[0] == "applied":
             if not status.startswith("ok ap="):
